@@ -90,7 +90,7 @@ class Actor(instr._RealThread):
         instr._ROLES[instr.get_ident()] = self.role
         try:
             self.value = self.fn(*self.args, **self.kwargs)
-        except DeadlockBroken as e:
+        except (DeadlockBroken, instr.CaseAbort) as e:
             self.error = e
         except BaseException as e:  # recorded, judged by the oracle
             self.error = e
@@ -443,14 +443,22 @@ def end(ctx, res=None):
     TR.disarm()
     TR.set_fuzz(0.0)
     stuck = []
-    for ex in reversed(ctx.executors):
-        try:
-            ex.shutdown(wait=False)
-        except DeadlockBroken:
-            pass
-        except Exception:
-            pass
+    if instr.abort_parked_actors():
+        for a in ctx.actors:
+            if a.is_alive():
+                instr._RealThread.join(a, 1.0)
+
+    def _shutdown_all(exs=list(reversed(ctx.executors))):
+        for ex in exs:
+            try:
+                ex.shutdown(wait=False)
+            except BaseException:
+                pass
+    st = instr._RealThread(target=_shutdown_all, daemon=True)
+    st.start()
+    st.join(3.0)
     instr.release_all_waiters()
+    instr.abort_parked_actors()
     for t in list(instr.TRACKED):
         if t.vf_started:
             instr._RealThread.join(t, 2.0)
@@ -538,10 +546,13 @@ class Sweep(object):
     def _drive(self, acts, ctx, info):
         """Returns True if the execution can be judged by the scenario oracle."""
         scn, res = self.scn, self.res
-        why = drive(acts, res)
+        why = drive(acts, res, use_time=getattr(scn, "use_time", True))
         info["drive"] = why
         if why == "timeout":
             raise Inconclusive("actors did not finish: " + instr.describe_threads())
+        if why == "hang" and hasattr(scn, "on_quiescent_unfinished"):
+            if scn.on_quiescent_unfinished(ctx, acts, res, info):
+                return True
         if why == "hang":
             stuck = [x.role for x in acts if not x.finished]
             key = scn.hang_key(ctx, stuck) if hasattr(scn, "hang_key") else "+".join(stuck)
